@@ -113,7 +113,7 @@ def _consts(t):
 def f_forall_int(ex, st, e, is_forall=True):
     lam = e.args[0]
     names = [a.arg for a in lam.args.args]
-    vs = [z3.Int(f"{n}!{next(_uid)}") for n in names]
+    vs = [z3.Int(f"{n}!q{len(ex.bound_vars)}") for n in names]
     binders = [(n, SV("int", v, T("int"))) for n, v in zip(names, vs)]
     body, facts = _quant(ex, st, lam, binders, vs, is_forall)
     f = z3.And(facts) if facts else z3.BoolVal(True)
@@ -133,7 +133,7 @@ def _side(ex, st, vs, f, pats):
     if ex.quant_facts is not None:
         ex.quant_facts.append(g)
     else:
-        st.pc.append(g)
+        st.add_fact(g)
 
 
 def _triggers(ex, st, e, binders):
@@ -178,7 +178,7 @@ def _elems(ex, st, e):
 def f_forall_in(ex, st, e, is_forall=True, with_idx=False):
     sq, ety = _elems(ex, st, e)
     lam = e.args[1]
-    k = z3.Int(f"k!{next(_uid)}")
+    k = z3.Int(f"k!q{len(ex.bound_vars)}")
     names = [a.arg for a in lam.args.args]
     saved = ex.quant_facts
     ex.quant_facts = pre = []
@@ -210,7 +210,7 @@ def f_forall_obj(ex, st, e, is_forall=True):
     cn = e.args[0].value
     lam = e.args[1]
     name = lam.args.args[0].arg
-    o = z3.Int(f"{name}!{next(_uid)}")
+    o = z3.Int(f"{name}!q{len(ex.bound_vars)}")
     ty = Ty("obj", classes=cn.split("|"))
     alive = ex.named_heap(st, "$alive")
     dom = z3.And(alive[o], ex.is_instance(o, ty.classes))
@@ -267,7 +267,7 @@ def f_remove1(ex, st, e):
     s, v = _seqarg(ex, st, e.args[0])
     x = ex.to_val(ex.ev1(e.args[1], st))
     if not ex.mentions_bound(s) and not ex.mentions_bound(x):
-        st.pc.append(smt.index_fact(s, x))
+        st.add_fact(smt.index_fact(s, x))
     return SV("seq", RemoveAt(s, IndexOf(s, x)), Ty("seq", args=[ex.list_elem_ty(v)] if ex.list_elem_ty(v) else []))
 
 
@@ -293,7 +293,7 @@ def f_index_of(ex, st, e):
     s, v = _seqarg(ex, st, e.args[0])
     x = ex.to_val(ex.ev1(e.args[1], st))
     if not ex.mentions_bound(s) and not ex.mentions_bound(x):
-        st.pc.append(smt.index_fact(s, x))
+        st.add_fact(smt.index_fact(s, x))
     return SV("int", IndexOf(s, x), T("int"))
 
 
@@ -320,7 +320,7 @@ def f_psum(ex, st, e):
     s, v = _seqarg(ex, st, e.args[0])
     n = ex.as_int(ex.ev1(e.args[1], st), st, e)
     if not ex.mentions_bound(s) and not ex.mentions_bound(n):
-        st.pc.extend(smt.psum_facts(s, n))
+        st.add_facts(smt.psum_facts(s, n))
     return SV("val", Val.realv(smt.PSum(s, n)), T("num"))
 
 
@@ -328,7 +328,7 @@ def f_psum_i(ex, st, e):
     s, v = _seqarg(ex, st, e.args[0])
     n = ex.as_int(ex.ev1(e.args[1], st), st, e)
     if not ex.mentions_bound(s) and not ex.mentions_bound(n):
-        st.pc.extend(smt.psumi_facts(s, n))
+        st.add_facts(smt.psumi_facts(s, n))
     return SV("int", smt.PSumI(s, n), T("int"))
 
 
